@@ -82,7 +82,13 @@ func runSubprocess(prop, repo string, args ...string) (subResult, error) {
 	return res, nil
 }
 
-var buildMatrix = [][2]string{{"linux", "amd64"}, {"linux", "386"}, {"darwin", "arm64"}, {"windows", "amd64"}}
+// buildMatrix: the configurations the project releases (.goreleaser.yml: linux,
+// darwin, windows × amd64, arm64), sampled so that every OS-specific file and
+// both architectures are covered. All are 64-bit: "int is 64 bits wide" is an
+// assumption of the panic audits (a 32-bit build would turn int(uint32) and
+// int(int64) conversions into possibly negative values; it is not a released
+// target).
+var buildMatrix = [][2]string{{"linux", "amd64"}, {"linux", "arm64"}, {"darwin", "arm64"}, {"windows", "amd64"}}
 
 // runThorough: (a) same obligations under every build configuration of the
 // matrix; (b) witness mutants through overlays; returns extra evidence keys,
